@@ -513,6 +513,55 @@ let run_ble (evs : string list) : string =
       Stdlib.Buffer.add_string buf ("|" ^ Stdlib.String.concat "," (Stdlib.List.map show_obs o) ^ "#" ^ show_subs s1); go s1 r in
   go Ble.bs_init evs; Stdlib.Buffer.contents buf
 
+(* ---- C17 ---- *)
+let run_subs (evs : string list) : string =
+  let ni x = n_of_int (int_of_string x) and nati x = nat_of_int (int_of_string x) in
+  let parse_kind = function
+    | "st" -> Subs.SubStates | "lg" -> Subs.SubLogs | "sc" -> Subs.SubServiceCalls | "ha0" -> Subs.SubHaStates false
+    | "ha1" -> Subs.SubHaStates true | "adv" -> Subs.SubAdv | "raw" -> Subs.SubRawAdv | "cf" -> Subs.SubConnFree
+    | "va00" -> Subs.SubVa (false, false) | "va01" -> Subs.SubVa (false, true) | "va10" -> Subs.SubVa (true, false)
+    | "va11" -> Subs.SubVa (true, true) | w -> failwith ("subkind " ^ w) in
+  let show_kind = function
+    | Subs.SubStates -> "st" | Subs.SubLogs -> "lg" | Subs.SubServiceCalls -> "sc" | Subs.SubHaStates b -> "ha" ^ b01 b
+    | Subs.SubAdv -> "adv" | Subs.SubRawAdv -> "raw" | Subs.SubConnFree -> "cf" | Subs.SubVa (a, n) -> "va" ^ b01 a ^ b01 n in
+  let parse w = match Stdlib.String.split_on_char ':' w with
+    | ["S"; i; k] -> Subs.SSubscribe (nati i, parse_kind k)
+    | ["U"; i] -> Subs.SUnsub (nati i)
+    | ["D"; i; t; r] -> Subs.SStartDone (nati i, nati t, (if r = "n" then Subs.HNone else if r = "x" then Subs.HRaise
+                                                         else Subs.HPort (ni (Stdlib.String.sub r 1 (Stdlib.String.length r - 1)))))
+    | "M" :: m -> Subs.SMsg (match m with
+        | ["st"; ty; k; v] -> Subs.MState (ni ty, ni k, ni v)
+        | ["cam"; k; d; dn] -> Subs.MCamera (ni k, bytes_of_hex (if d = "-" then "" else d), dn = "1")
+        | ["lg"; p] -> Subs.MLog (ni p) | ["sc"; p] -> Subs.MServiceCall (ni p)
+        | ["ha"; e; a; o] -> Subs.MHaState (ni e, ni a, o = "1")
+        | ["adv"; p] -> Subs.MAdv (ni p) | ["raw"; p] -> Subs.MRawAdv (ni p)
+        | ["cf"; f; l] -> Subs.MConnFree (ni f, ni l)
+        | ["var"; st; c; f; wk] -> Subs.MVaRequest (st = "1", ni c, ni f, ni wk)
+        | ["vaa"; d; l] -> Subs.MVaAudio (ni d, l = "1")
+        | ["van"; p] -> Subs.MVaAnnounce (ni p)
+        | ["ot"; t] -> Subs.MOther (ni t)
+        | _ -> failwith ("smsg " ^ w))
+    | _ -> failwith ("sevent " ^ w) in
+  let i n = string_of_int (int_of_n n) in
+  let show_obs (id, o) = string_of_int (int_of_nat id) ^ "=" ^ (match o with
+    | Subs.CbState (t, k, v) -> "st." ^ i t ^ "." ^ i k ^ "." ^ i v
+    | Subs.CbCamera (k, d) -> "cam." ^ i k ^ "." ^ hex_of_bytes d
+    | Subs.CbLog p -> "lg." ^ i p | Subs.CbServiceCall p -> "sc." ^ i p
+    | Subs.CbHaSub (e, a) -> "has." ^ i e ^ "." ^ i a | Subs.CbHaRequest (e, a) -> "har." ^ i e ^ "." ^ i a
+    | Subs.CbAdv p -> "adv." ^ i p | Subs.CbRawAdv p -> "raw." ^ i p | Subs.CbConnFree (f, l) -> "cf." ^ i f ^ "." ^ i l
+    | Subs.CbVaStart (t, c, f, wk) -> "vastart." ^ string_of_int (int_of_nat t) ^ "." ^ i c ^ "." ^ i f ^ "." ^ (match wk with None -> "none" | Some x -> i x)
+    | Subs.CbVaStop a -> "vastop." ^ b01 a | Subs.CbVaAudio d -> "vaaudio." ^ i d | Subs.CbVaAnnounce p -> "vaann." ^ i p
+    | Subs.OWrite (Subs.WSubscribe k) -> "W.sub." ^ show_kind k
+    | Subs.OWrite Subs.WUnsubAdv -> "W.unsubadv" | Subs.OWrite Subs.WVaUnsub -> "W.vaunsub"
+    | Subs.OWrite (Subs.WVaResponse None) -> "W.varesp.err" | Subs.OWrite (Subs.WVaResponse (Some p)) -> "W.varesp." ^ i p
+    | Subs.OCancelStart t -> "cancel." ^ string_of_int (int_of_nat t)) in
+  let buf = Stdlib.Buffer.create 256 in
+  let rec go s = function
+    | [] -> ()
+    | w :: r -> let (s1, o) = Subs.sstep s (parse w) in
+      Stdlib.Buffer.add_string buf ("|" ^ Stdlib.String.concat "," (Stdlib.List.map show_obs o)); go s1 r in
+  go [] evs; Stdlib.Buffer.contents buf
+
 let handle (line : string) : string =
   match words line with
   | "venc" :: v :: [] -> hex_of_bytes (Varint.enc (n_of_hex v))
@@ -547,6 +596,7 @@ let handle (line : string) : string =
   | "client" :: nz :: ex :: ka :: scr :: labels -> run_client (nz = "1") (ex = "1") (int_of_string ka) scr labels
   | "reconnect" :: labels -> run_reconnect labels
   | "ble" :: evs -> run_ble evs
+  | "subs" :: evs -> run_subs evs
   | ["backoff"; n] -> string_of_z (Reconnect.backoff_seconds (z_of_string n))
   | "resolve" :: hosts -> run_resolve hosts
   | "zc" :: ops -> run_zc ops
